@@ -29,6 +29,10 @@ const CORPUS: &[&str] = &[
     "NONBLOCKING PULSE 0 \"a\" flat(duration: 1.0)\nNONBLOCKING PULSE 0 \"b\" flat(duration: 1.0)\nPULSE 0 1 \"c\" flat(duration: 1.0)\n",
     "X 0\n",
     "MOVE x[0] 1\nWAIT\n",
+    // read set overlapping the capture set of one instruction
+    "CAPTURE 0 \"a\" flat(duration: 1.0, iq: ro[1]) ro[0]\n",
+    "RAW-CAPTURE 0 \"a\" ro[0] ro\n",
+    "MOVE ro[0] 1\nNONBLOCKING CAPTURE 0 \"b\" flat(duration: 1.0, iq: ro[1], scale: x[0]) ro[0]\nRAW-CAPTURE 0 \"a\" x[0] ro[2]\nJUMP-WHEN @l ro[0]\nLABEL @l\n",
 ];
 
 fn ast_case(ctx: &mut Ctx, text: &str) {
@@ -82,6 +86,8 @@ fn table() -> TableHandler {
             Row { role: 1, scheduled: true, reads: vec![0], frames: Some((vec![], vec![])), ..Row::default() }, // 8: RF matching nothing, reads a
             Row { role: 1, scheduled: true, frames: None, ..Row::default() },                            // 9: RF, no matching_frames
             rf(true, &[], &[0]),                                                                         // 10: only blocks fa
+            Row { role: 1, scheduled: true, reads: vec![0], captures: vec![0], frames: Some((vec![0], vec![])), ..Row::default() }, // 11: read a + capture a on fa
+            Row { role: 1, scheduled: false, reads: vec![0], writes: vec![0], captures: vec![0], frames: Some((vec![1], vec![])), ..Row::default() }, // 12: read + write + capture a
         ],
     }
 }
@@ -125,6 +131,9 @@ fn run(ctx: &mut Ctx) {
     let max_two = if quick { 2 } else { 3 };
     for l1 in 0..=max_two {
         for l2 in 0..=max_two {
+            if l1 + l2 > 5 {
+                continue; // 13^6 two-block programs would not fit the thorough budget
+            }
             all_seqs(l1 + l2, nrows, &mut |s| {
                 for sep in [vec!["LABEL @m"], vec!["JUMP-WHEN @m ma[0]", "LABEL @m"]] {
                     let mut body: Vec<Result<usize, String>> = s[..l1].iter().map(|&k| Ok(k as usize)).collect();
